@@ -1,6 +1,7 @@
 """OBDD histories and operations (C16-C18): replay abstract behaviours on the real BDD package,
 project the heap, and let TraceBDD / TraceBool judge."""
 import gc
+from common import exc_name
 import json
 import random
 import re
@@ -26,7 +27,8 @@ VNAMES = [None,
 
 
 class Names(object):
-    def __init__(self, k):
+    def __init__(self, k, pad=0):
+        self.pad = pad
         self.fwd = VNAMES[k % len(VNAMES)] if k is not None else None
         self.bwd = {v: a for a, v in self.fwd.items()} if self.fwd else None
 
@@ -42,7 +44,20 @@ class Names(object):
         return self.bwd.get(v, v)
 
     def order(self, o):
-        return [self.c(v) for v in o]
+        out = [self.c(v) for v in o]
+        if self.pad:
+            # a long ordering: hundreds of further variables that the functions never mention, spread between the used ones
+            rnd = random.Random(self.pad)
+            fill = ['pad_%04d' % i for i in range(self.pad)]
+            cuts = sorted(rnd.randrange(len(fill) + 1) for _ in out)
+            res, prev = [], 0
+            for v, c in zip(out, cuts):
+                res.extend(fill[prev:c])
+                res.append(v)
+                prev = c
+            res.extend(fill[prev:])
+            return res
+        return out
 
     def expr(self, e):
         if e[0] == 'var':
@@ -131,7 +146,8 @@ def _run(b):
     ballast_ids = None
     if ballast is not None:
         ballast_ids = set(id(n) for n in BDDNode.nodes() if isinstance(n, bddmod.BDDNonTerminalNode))
-    nm = Names(b.get('vnames', b.get('shuf', b.get('trace', 0))) if b.get('vnames', 'vary') is not None else None)
+    nm = Names(b.get('vnames', b.get('shuf', b.get('trace', 0))) if b.get('vnames', 'vary') is not None else None,
+               pad=(460 + (b.get('trace', 0) * 37) % 600 if b.get('trace', 0) % 9 == 4 else 0))
     order = list(b['order'])
     ordk = b.get('shuf', b.get('trace', 0)) * 3 if b.get('ordstyle', 'vary') == 'vary' else 0
     ho = {}
@@ -182,7 +198,7 @@ def _run(b):
         except (KeyboardInterrupt, SystemExit, MemoryError):
             raise
         except BaseException as ex:
-            ev['out'] = {'exc': type(ex).__name__, 'msg': str(ex)[:100]}
+            ev['out'] = {'exc': exc_name(ex), 'msg': str(ex)[:100]}
             ex = None
         allh = dict(held)
         allh.update(parked)
@@ -261,7 +277,7 @@ def obdd_out(fn, nm=None):
     except (KeyboardInterrupt, SystemExit, MemoryError):
         raise
     except BaseException as ex:
-        return None, {'exc': type(ex).__name__, 'msg': str(ex)[:100]}
+        return None, {'exc': exc_name(ex), 'msg': str(ex)[:100]}
 
 
 def bool_event(c):
@@ -270,7 +286,8 @@ def bool_event(c):
     ev = {k: v for k, v in c.items() if k not in ('seed',)}
     order = c.get('order')
 
-    nm = Names(rnd.randrange(len(VNAMES)) if c.get('vnames', 'vary') == 'vary' else c.get('vnames'))
+    nm = Names(rnd.randrange(len(VNAMES)) if c.get('vnames', 'vary') == 'vary' else c.get('vnames'),
+               pad=(rnd.randint(460, 1100) if (c.get('pad') or rnd.random() < 0.12) and c.get('notation') != 'lambda' and op != 'strrt' else 0))
 
     def text(e):
         st = c.get('style', 'sym')
@@ -372,7 +389,7 @@ def all_exprs(depth, vars_):
 
 
 def run_bool_events(ctx, cases):
-    from common import pmap
+    from common import pmap, exc_name
     for i, c in enumerate(cases):
         c['tid'] = i
     events = pmap(bool_event, cases)
